@@ -48,7 +48,10 @@ let () =
                 | [f; l] -> Some { p_next = List.map fst prs; p_prev = List.map snd prs; p_first = popt f; p_last = popt l }
                 | _ -> None)
              | _ -> None) in
-          let qshow s = "Q" ^ String.concat "," (List.map2 (fun a b -> pshow a ^ "." ^ pshow b) s.p_next s.p_prev) ^ "/" ^ pshow s.p_first ^ "." ^ pshow s.p_last in
+          (* the snapshots show the slots the segment had at the start; end-of-line slots made by justify are numbered after them *)
+          let n0 = ref 0 in
+          let rec take k l = if k <= 0 then [] else match l with [] -> [] | x :: r -> x :: take (k - 1) r in
+          let qshow s = "Q" ^ String.concat "," (List.map2 (fun a b -> pshow a ^ "." ^ pshow b) (take !n0 s.p_next) (take !n0 s.p_prev)) ^ "/" ^ pshow s.p_first ^ "." ^ pshow s.p_last in
           (* the control of justify over m_dir: expected reversal skeleton per call, checked against the recorded events *)
           let dword = ref None and fdir = ref false and bidi = ref false and jpass = ref false in
           let jtoks = ref [] and injust = ref false in
@@ -84,11 +87,11 @@ let () =
                              | LErr _ -> verdict := Printf.sprintf "ERR @tok%d" k) in
               if tok.[0] = 'M' then marks := List.init (n - 1) (fun j -> tok.[j + 1] = '1')
               else if tok.[0] = 'D' then (match split ',' (String.sub tok 1 (n - 1)) with
-                                          | [d; f; b; jp] -> dword := Some (n_of_i (int_of_string d)); fdir := (f <> "0"); bidi := (b = "1"); jpass := (jp = "1")
+                                          | d :: f :: b :: jp :: _ -> dword := Some (n_of_i (int_of_string d)); fdir := (f <> "0"); bidi := (b = "1"); jpass := (jp = "1")
                                           | _ -> ())
               else if tok.[0] = 'Q' then begin
                 (match !pst with
-                 | None -> pst := parse_q tok
+                 | None -> pst := parse_q tok; (match !pst with Some s0 -> n0 := List.length s0.p_next | None -> ())
                  | Some s -> if !pverdict = "" then begin incr psnaps; if qshow s <> tok then pverdict := Printf.sprintf "MISMATCH @tok%d model=%s impl=%s" k (qshow s) tok end)
               end
               else if tok.[0] = 'L' then begin
@@ -99,6 +102,10 @@ let () =
               end
               else if n >= 2 && String.sub tok 0 2 = "lb" then begin papp k (PBreak (nat_of_int (int_of_string (String.sub tok 2 (n - 2))))); apply (LBreak (n_of_int (int_of_string (String.sub tok 2 (n - 2))))) end
               else if n >= 2 && String.sub tok 0 2 = "se" then (if !injust then jtoks := false :: !jtoks; match split ',' (String.sub tok 2 (n - 2)) with [a; b] -> papp k (PSetEnds (popt a, popt b)); apply (LSetEnds (opt a, opt b)) | _ -> ())
+              else if n >= 3 && String.sub tok 0 2 = "ae" then (match split ',' (String.sub tok 2 (n - 2)) with
+                                                               | [e; nn; x] -> papp k (PAddEnd (nat_of_int (int_of_string e), popt nn, x = "1"))
+                                                               | _ -> ())
+              else if n >= 3 && String.sub tok 0 2 = "de" then papp k (PDelEnd (nat_of_int (int_of_string (String.sub tok 2 (n - 2)))))
               else if tok.[0] = 'r' then begin (if !injust then jtoks := true :: !jtoks); papp k PReverse; apply (LReverse (if tok = "r-" then [] else List.init (n - 1) (fun j -> tok.[j + 1] = '1'))) end
               else if tok.[0] = 'j' then begin close_just k; injust := true end
               else ()      (* events of justification passes (attach etc.) do not concern the line structure *)
